@@ -5,8 +5,9 @@ from pysym.harness import run_cases
 
 LEVEL = 'exploration'
 DEDUCTIVE = []          # contract modules run by engine P for this property
-FINISH = dict(rule='see checks/b11.py RULE / run.bound entries', explanation='bounded stand-in (engine B) of the contracts of DESIGN §2 C11; '
-              'labelled bounded, never counted as proved', trusted_base=['CPython 3.12', 'oracles/*', 'RDKit where stated'])
+FINISH = dict(rule='deductive: one obligation per path / table key; B: see run.bound entries of checks/b11.py',
+              explanation='T: V2000 charge code tables mutually inverse; B: write->read record equality for five writer/reader pairs, corrupted records at every position, index access',
+              trusted_base=['CPython', 'RDKit molblock writer', 'oracles/o11_records.py'])
 replay = make_replay('C11')
 
 
